@@ -84,6 +84,9 @@ def repo_hash(flavour):
     return h.hexdigest()[:16]
 
 
+PRUNE_AGE = 3 * 3600
+
+
 def build_pixman(flavour="plain"):
     """Build /repo's working tree as a static library; returns a dict with lib/include paths."""
     hh = repo_hash(flavour)
@@ -110,10 +113,11 @@ def build_pixman(flavour="plain"):
                 raise Infra("build of /repo failed (flavour %s):\n%s" % (flavour, p.stdout[-3000:]))
             open(os.path.join(d, ".ok"), "w").write(str(time.time()))
             log("built pixman flavour=%s hash=%s in %.1fs" % (flavour, hh, time.time() - t0))
-            # prune: keep the two newest builds of this flavour
+            # prune builds of this flavour that nobody has used for PRUNE_AGE seconds (never the two newest): other
+            # processes may be checking other trees (bin/selftest) against their own builds at this very moment
             olds = sorted(glob.glob(os.path.join(base, flavour + "-????????????????")), key=os.path.getmtime)
             for o in olds[:-2]:
-                if o != d:
+                if o != d and time.time() - os.path.getmtime(o) > PRUNE_AGE:
                     shutil.rmtree(o, ignore_errors=True)
         else:
             os.utime(d)
@@ -140,7 +144,8 @@ def build_repo_tests(names, flavour="plain"):
         if not os.path.exists(os.path.join(d, "build.ninja")):
             shutil.rmtree(d, ignore_errors=True)
             for o in glob.glob(os.path.join(base, "tests-%s-*" % flavour)):
-                shutil.rmtree(o, ignore_errors=True)
+                if time.time() - os.path.getmtime(o) > PRUNE_AGE:
+                    shutil.rmtree(o, ignore_errors=True)
             cargs, mopts, _ = FLAVOURS[flavour]
             p = sh(["meson", "setup", d, REPO, "-Dtests=enabled", "-Dgtk=disabled", "-Dlibpng=disabled",
                     "-Dopenmp=disabled", "-Ddefault_library=static", "-Dwerror=false",
@@ -169,10 +174,13 @@ def build_driver(name, flavour="plain", extra_src=(), cflags=(), ldflags=()):
     os.makedirs(outdir, exist_ok=True)
     variant = hashlib.sha1(repr((tuple(extra_src), tuple(cflags), tuple(ldflags))).encode()).hexdigest()[:6]
     exe = os.path.join(outdir, "%s-%s-%s-%s" % (name, flavour, variant, h.hexdigest()[:12]))
-    if not os.path.exists(exe):
+    if os.path.exists(exe):
+        os.utime(exe)
+    else:
         for o in glob.glob(os.path.join(outdir, "%s-%s-%s-*" % (name, flavour, variant))):
             try:
-                os.unlink(o)
+                if time.time() - os.path.getmtime(o) > PRUNE_AGE:      # see build_pixman
+                    os.unlink(o)
             except OSError:
                 pass
         dflags = FLAVOURS[flavour][2]
